@@ -3,6 +3,7 @@ package main
 // Obligations and their discharge by z3-new / z3 / cvc5.
 
 import (
+	"crypto/md5"
 	"regexp"
 	"bytes"
 	"context"
@@ -123,12 +124,12 @@ func tquoInstance(t *Term) *Term {
 
 // defConsts: constants introduced as names for terms (c = t); such a hypothesis is only
 // relevant if c is mentioned elsewhere.
-var defConsts sync.Map
-
+// They are recognised by their name prefix ("d:" for values, "dH:" for heap versions), so that the numbering of fresh names
+// can restart for every verification unit.
 func isDefHyp(h *Term) (string, bool) {
 	if h.K == TApp && h.Op == "=" && len(h.Args) == 2 && h.Args[0].K == TConst {
-		if _, ok := defConsts.Load(h.Args[0].Op); ok {
-			return h.Args[0].Op, true
+		if op := h.Args[0].Op; strings.HasPrefix(op, "d:") || strings.HasPrefix(op, "dH:") {
+			return op, true
 		}
 	}
 	return "", false
@@ -198,12 +199,11 @@ func (o *Obligation) relevantHyps() []*Term {
 	return keep
 }
 
-var skCounter int
-
 var reDenomLit = regexp.MustCompile(`^[a-zA-Z][a-zA-Z0-9/:._-]{2,127}$`)
 
 func introGoal(g *Term) (*Term, []*Term) {
 	var hyps []*Term
+	skCounter := 0 // per obligation: the text of an obligation must not depend on the order in which obligations are solved
 	for {
 		switch {
 		case g.K == TQuant && g.Op == "forall":
@@ -680,6 +680,10 @@ func (o *Obligation) Discharge(timeoutS int, thorough bool) {
 	base := filepath.Join(dir, fmt.Sprintf("%d-%s", atomic.AddInt64(&fileCounter, 1), sanitize(o.Name)))
 	txt := o.SMT(false, true)
 	o.SMTSize = len(txt)
+	if d := os.Getenv("GOCV_KEEPSMT"); d != "" {
+		_ = os.MkdirAll(d, 0o755)
+		_ = os.WriteFile(filepath.Join(d, fmt.Sprintf("%s-%x.smt2", sanitize(o.Name), md5.Sum([]byte(txt)))), []byte(txt), 0o644)
+	}
 	file := base + ".smt2"
 	if err := os.WriteFile(file, []byte(txt), 0o644); err != nil {
 		o.Status, o.Output = "error", err.Error()
@@ -957,6 +961,21 @@ func DischargeAll(obs []*Obligation, timeoutS int, thorough bool, par int) {
 	}
 	close(ch)
 	wg.Wait()
+	// second chance without contention: the first pass runs up to `par` obligations (three solver processes each) at a
+	// time, so an obligation that needs a few seconds alone can run into its limit on a loaded machine. Whatever is still
+	// undecided is tried again, one at a time. (A genuinely failing obligation comes back `sat`, not undecided, or stays
+	// undecided here too; the number of retries is capped.)
+	retried := 0
+	for _, o := range obs {
+		if o.Status != "undecided" || o.Group != "" || o.Kind == "known-finding-canary" || o.Expect == "sat" || retried >= 8 {
+			continue
+		}
+		retried++
+		first := o.Output
+		o.Model, o.Relaxed = nil, false
+		o.Discharge(timeoutS, thorough)
+		o.Output = o.Output + " [retried alone; first pass: " + first + "]"
+	}
 	okGroup := map[string]bool{}
 	for _, o := range obs {
 		if o.Group != "" && o.Status == "discharged" {
